@@ -485,6 +485,37 @@ theorem lastWriter_spec {s : State} {v : Vec} (ps : List Nat) (rs : List Ref)
   rw [i2 p]
   cases lastWriter p ps rs <;> simp [hp]
 
+/-- **end to end**: `v[idx] = [a₀, a₁, …]` (index lists in ANY order, with repeats; slices of either
+sign; short index) on a reachable state, all values well-formed arrays the caller holds: the call
+succeeds, and the cell at flat position `p` finally holds the value of the LAST `k` whose addressed
+position `ps[k]` is `p` — `ps` being the row-major enumeration `positions` of the resolved index lists
+(`slice_spec` / `positions_addr` give its coordinates) — every other cell keeps what it held; heap,
+schema and all other vectors are untouched.  (`assign_spec` needs distinct positions; this does not.) -/
+theorem assign_lastWriter {s : State} {vid : Nat} {v : Vec} {idx : List Ix} {rs : List Ref} {ls : List (List Int)} {ps : List Nat}
+    (hI : Inv s) (hv : s.getVec vid = .ok v) (hle : idx.length ≤ v.shape.length)
+    (hf : (padIdx v.shape.length idx).any Ix.isFancy = true)
+    (hls : resolveAll true v.shape (padIdx v.shape.length idx) = .ok ls) (hps : positions v.shape ls = .ok ps)
+    (hl : rs.length = ps.length)
+    (hrs : ∀ r ∈ rs, ∃ a, s.heap[r]? = some a ∧ a.ncols = v.fields.length) :
+    ∃ v', opSetItem s vid idx (.many (rs.map Val.ref)) = (s.putVec vid v', .none) ∧
+      v'.shape = v.shape ∧ v'.fields = v.fields ∧ v'.units = v.units ∧
+      ∀ p, p < v.cells.length → v'.cells[p]? =
+        match lastWriter p ps rs with
+        | some r => some (some r)
+        | none => v.cells[p]? := by
+  have hvok := hI.vecs v (getVec_mem hv)
+  have hlt : ∀ q ∈ ps, q < v.cells.length := by
+    intro q hq; rw [hvok.ncells]; exact positions_lt _ _ _ hps q hq
+  obtain ⟨i1, i2⟩ := lastWriter_spec (s := s) (v := v) ps rs hl.symm hlt hrs
+  refine ⟨{ v with cells := (setCells s.heap v.fields.length v.cells ps (rs.map Val.ref)).1 }, ?_, rfl, rfl, rfl, i2⟩
+  unfold opSetItem
+  simp only [hv]
+  rw [if_neg (by omega)]
+  unfold setItemCore
+  simp only [hf, if_true, hls, hps, List.length_map]
+  rw [if_neg (by simpa using hl)]
+  simp [finish, i1]
+
 /-! ### non-vacuity -/
 
 /-- a history with three rejected calls between valid ones: a bad shape, a duplicate field added,
@@ -510,5 +541,16 @@ example : Op.atomic (.addFields 0 ["z", "x"]) = true := rfl
 /-- descending list `[2, 0, 2]`: position 2 is written twice, the later value stays -/
 example : lastWriter 2 [2, 0, 2] [7, 8, 9] = some 9 ∧ lastWriter 0 [2, 0, 2] [7, 8, 9] = some 8 ∧
     lastWriter 1 [2, 0, 2] [7, 8, 9] = none := by decide
+
+/-- three arrays assigned through the unsorted list with a repeat `[2, 0, 2]` -/
+def lwOps : List Op :=
+  [ .alloc 1 [[1]] false, .alloc 1 [[2]] false, .alloc 1 [[3]] false, .fromShape [3] none (some ["x"]) none ]
+
+example : ∃ v', opSetItem (run init lwOps) 0 [.list [2, 0, 2]] (.many ([0, 1, 2].map Val.ref)) = ((run init lwOps).putVec 0 v', .none) ∧
+    v'.cells[2]? = some (some 2) ∧ v'.cells[0]? = some (some 1) ∧ v'.cells[1]? = some none := by
+  obtain ⟨v', h, _, _, _, hc⟩ := assign_lastWriter (s := run init lwOps) (vid := 0) (idx := [.list [2, 0, 2]]) (rs := [0, 1, 2])
+    (ls := [[2, 0, 2]]) (ps := [2, 0, 2]) (invariant_all_histories lwOps) rfl (by decide) rfl rfl rfl rfl
+    (by intro r hr; simp at hr; rcases hr with rfl | rfl | rfl <;> exact ⟨_, rfl, rfl⟩)
+  exact ⟨v', h, hc 2 (by decide), hc 0 (by decide), hc 1 (by decide)⟩
 
 end QuantemModel.Props.C11
